@@ -212,7 +212,8 @@ def check_figures(ts, cfg, doc):
                     nfig += 1
                     exp = expected(kind, card_norm(con["card"]), cfg["disable_exact_cardinality"])
                     if not any(abs(float(rs) - 100.0 * e / n) <= tol for e in exp):
-                        fails.append((rc_of(kind), "line %s %s %s ratio %s is none of %r/%d" % (d, p, kind, rs, exp, n)))
+                        fails.append((rc_of(kind, int(round(float(rs) * n / 100.0)), card_norm(con["card"])),
+                                      "line %s %s %s ratio %s is none of %r/%d" % (d, p, kind, rs, exp, n)))
                     if float(rs) > 100 + 1e-9:
                         fails.append((rc_of(kind), "ratio above 100 %%: %s" % rs))
             for com in con["comments"]:
@@ -230,7 +231,8 @@ def check_figures(ts, cfg, doc):
                 elif rs2 is not None:
                     nfig += 1
                     if not any(abs(float(rs2) - 100.0 * e / n) <= tol for e in exp):
-                        fails.append((rc_of(kind), "comment %s %s obj %s ratio %s is none of %r/%d" % (
+                        fails.append((rc_of(kind, int(round(float(rs2) * n / 100.0)), card_norm(com["card"])),
+                                      "comment %s %s obj %s ratio %s is none of %r/%d" % (
                             d, p, kind, rs2, exp, n)))
     return fails, nfig
 
